@@ -678,8 +678,12 @@ func isCountersignatureValue(v any) bool {
 // canUint reports whether v can be used as a CBOR uint type.
 func canUint(v any) bool {
 	switch v := v.(type) {
-	case uint, uint8, uint16, uint32, uint64:
+	case uint8, uint16, uint32:
 		return true
+	case uint:
+		return uint64(v) <= 1<<63-1 // larger values cannot be decoded back
+	case uint64:
+		return v <= 1<<63-1
 	case int:
 		return v >= 0
 	case int8:
